@@ -4,7 +4,7 @@ namespace Ypv.Drv.C03
 open Lean (Json)
 open Ypv Ypv.Drv Ypv.Drv.C04
 
-def typedToJson : Typed → Json
+def typedToJson : ETyped → Json
   | .bool b => Json.mkObj [("k", "bool"), ("v", .bool b)]
   | .none => Json.mkObj [("k", "null")]
   | .int i => Json.mkObj [("k", "int"), ("v", toString i)]
@@ -43,7 +43,7 @@ def handle (op : String) (j : Json) : Except String Json := do
     let d ← docOf j
     let addrs ← addrsOf j "addrs"
     pure (Json.mkObj [("model", outToJson (renameKeys (← keyOf j) d addrs))])
-  | "typed" => pure (typedToJson (typedValue (s2l (← getStr j "t"))))
+  | "typed" => pure (typedToJson (eTypedValue (s2l (← getStr j "t"))))
   | "newscalar" =>
     let v ← scalarOfJson (← j.getObjVal? "v")
     let fmt ← fmtOfName (← getStr j "fmt")
